@@ -69,6 +69,19 @@ public:
       data = &nullData;
     }
 
+    Variant& operator=(const Variant& other)
+    {
+      if(&other != this)
+      {
+        Data* otherData = other.data->ref ? other.data : &nullData;
+        if(otherData->ref)
+          Atomic::increment(otherData->ref);
+        clear();
+        data = otherData;
+      }
+      return *this;
+    }
+
     Type getType() const {return data->type;}
     bool isNull() const {return data->type == nullType;}
 
@@ -122,7 +135,7 @@ public:
       else if(data->ref > 1)
       {
         Data* newData = (Data*)new char[sizeof(Data) + sizeof(Element)];
-        Element* element = (Element*)(data + 1);
+        Element* element = (Element*)(newData + 1);
         new (element) Element(*(const Element*)(data + 1));
         clear();
         data = newData;
